@@ -1297,6 +1297,78 @@ theorem layerCall_eq (a : Activation) (σ : ℚ → ℚ) (red : Reduction) (f U 
   · have : ¬ (K = 0 ∨ U = 0) := by omega
     simp [this]
 
+/-! ### the sparsity factor as a Python `int` (fixes 1677739 / 75478be) -/
+
+theorem sparsityOf_lt {f : Int} (h : f < 1) : sparsityOf f = .error .valueError := by
+  simp [sparsityOf, h]
+
+theorem sparsityOf_pos {f : Int} (h : 1 ≤ f) : sparsityOf f = .ok f.toNat := by
+  have : ¬ f < 1 := by omega
+  simp [sparsityOf, this]
+
+theorem sparsityOf_natCast {n : Nat} (h : 1 ≤ n) : sparsityOf (n : Int) = .ok n := by
+  rw [sparsityOf_pos (by omega)]; simp
+
+/-- an accepted factor is at least 1 and is the natural number the model goes on with -/
+theorem sparsityOf_ok {f : Int} {n : Nat} (h : sparsityOf f = .ok n) : 1 ≤ f ∧ (n : Int) = f ∧ 1 ≤ n := by
+  unfold sparsityOf at h
+  split_ifs at h with h1
+  simp only [Except.ok.injEq] at h
+  omega
+
+/-- below 1 the constructor raises a `ValueError` whatever else is configured -/
+theorem layerCallZ_lt {f : Int} (h : f < 1) (a : Activation) (σ : ℚ → ℚ) (red : Reduction) (U : Nat)
+    (scale : List ℚ) (kernel : List (List (List ℚ))) (K W : Nat) (x : List ℚ) :
+    layerCallZ a σ red f U scale kernel K W x = .error .valueError := by
+  unfold layerCallZ
+  rw [sparsityOf_lt h]
+  by_cases hc : K = 0 ∨ U = 0 <;> simp [hc, bind, Except.bind]
+
+theorem cdfFnZ_lt {f : Int} (h : f < 1) (a : Activation) (σ : ℚ → ℚ) (red : Reduction) (U : Nat)
+    (scaling : Option (List (List (List ℚ)))) (loc : List (List (List ℚ))) (K W : Nat) (x : List ℚ) :
+    cdfFnZ a σ red f U scaling loc K W x = .error .valueError := by
+  unfold cdfFnZ
+  rw [sparsityOf_lt h]
+  rfl
+
+/-- from 1 on the `int` entry point is the `Nat` one (the constructor check `K = 0 ∨ U = 0` is the first
+statement of `layerCall` as well) -/
+theorem layerCallZ_pos {f : Int} (h : 1 ≤ f) (a : Activation) (σ : ℚ → ℚ) (red : Reduction) (U : Nat)
+    (scale : List ℚ) (kernel : List (List (List ℚ))) (K W : Nat) (x : List ℚ) :
+    layerCallZ a σ red f U scale kernel K W x = layerCall a σ red f.toNat U scale kernel K W x := by
+  unfold layerCallZ
+  rw [sparsityOf_pos h]
+  by_cases hc : K = 0 ∨ U = 0
+  · simp [layerCall, hc, bind, Except.bind]
+  · simp [hc, bind, Except.bind]
+
+theorem cdfFnZ_pos {f : Int} (h : 1 ≤ f) (a : Activation) (σ : ℚ → ℚ) (red : Reduction) (U : Nat)
+    (scaling : Option (List (List (List ℚ)))) (loc : List (List (List ℚ))) (K W : Nat) (x : List ℚ) :
+    cdfFnZ a σ red f U scaling loc K W x = cdfFn a σ red f.toNat U scaling loc K W x := by
+  unfold cdfFnZ
+  rw [sparsityOf_pos h]
+  rfl
+
+theorem layerCallZ_ok {a : Activation} {σ : ℚ → ℚ} {red : Reduction} {f : Int} {U : Nat} {scale : List ℚ}
+    {kernel : List (List (List ℚ))} {K W : Nat} {x : List ℚ} {out : List (List ℚ)}
+    (h : layerCallZ a σ red f U scale kernel K W x = .ok out) :
+    1 ≤ f ∧ layerCall a σ red f.toNat U scale kernel K W x = .ok out := by
+  by_cases hf : f < 1
+  · rw [layerCallZ_lt hf] at h; cases h
+  · have hf1 : 1 ≤ f := by omega
+    rw [layerCallZ_pos hf1] at h
+    exact ⟨hf1, h⟩
+
+theorem cdfFnZ_ok {a : Activation} {σ : ℚ → ℚ} {red : Reduction} {f : Int} {U : Nat}
+    {scaling : Option (List (List (List ℚ)))} {loc : List (List (List ℚ))} {K W : Nat} {x : List ℚ}
+    {out : List (List ℚ)} (h : cdfFnZ a σ red f U scaling loc K W x = .ok out) :
+    1 ≤ f ∧ cdfFn a σ red f.toNat U scaling loc K W x = .ok out := by
+  by_cases hf : f < 1
+  · rw [cdfFnZ_lt hf] at h; cases h
+  · have hf1 : 1 ≤ f := by omega
+    rw [cdfFnZ_pos hf1] at h
+    exact ⟨hf1, h⟩
+
 theorem mem_tileUnits {α : Type} (units : Nat) (rows : List α) (a : α) (h : a ∈ tileUnits units rows) :
     a ∈ rows := by
   unfold tileUnits at h
